@@ -194,3 +194,32 @@ Qed.
 (* hence, by the theorem, the two unordered-looking writes are ordered *)
 Example C15_ex_race_free : race_free ex_conf_trace.
 Proof. exact (C15_lockset_sound ex_conf_table ex_conf_trace ex_conf_interp C15_ex_wf C15_ex_conforms eq_refl). Qed.
+
+(* ---------- ownership of an envelope passes with Write on a by-reference transport ---------- *)
+(* goroutine 0 (a client stream's SendMsg) fills envelope 9, hands it to the in-process channel transport (Send), goroutine 1
+   (the proxy) receives it and edits it in place; what goroutine 0 did BEFORE the Write is ordered before the proxy's access
+   (ex_own_before) - what it does AFTER the Write (reading the envelope once more, e.g. to report its size to a stats
+   handler) is not: a data race (ex_own_race; seeded/C15_13). In the model this is no new rule: happens-before has the
+   channel edge Send -> Recv and nothing leads back from the receiver to the sender. The envelope is not a tracked struct
+   of the static table (protobuf messages are outside it: see the claim), so only the race detector sees such an access:
+   workload byref. *)
+Definition ex_own : trace :=
+  [Acc 0 (9, 1) true false; Send 0 5 0; Recv 1 5 0; Acc 1 (9, 1) true false; Acc 0 (9, 1) false false].
+Example C15_ex_own_before : hb ex_own 0 3.
+Proof.
+  apply hb_trans with 1%nat; [eapply hb_po; [| reflexivity | reflexivity | reflexivity]; lia|].
+  apply hb_trans with 2%nat; [eapply hb_sync; [| reflexivity | reflexivity | cbn; auto]; lia|].
+  eapply hb_po; [| reflexivity | reflexivity | reflexivity]; lia.
+Qed.
+Example C15_ex_own_race : race ex_own 3 4.
+Proof.
+  split.
+  - split; [lia|]. exists 1, 0, (9, 1), true, false, false, false. repeat split; try reflexivity. discriminate.
+  - assert (H : forall i j, hb ex_own i j -> i <> 3%nat).
+    { induction 1 as [i j e1 e2 Hij H1 H2 Ht | i j e1 e2 Hij H1 H2 Hs | i j k _ IH1 _ _]; [| |exact IH1].
+      - intros ->. cbn in H1. inversion H1; subst e1.
+        do 5 (destruct j as [|j]; [cbn in H2; try lia; inversion H2; subst e2; cbn in Ht; discriminate|]).
+        cbn in H2. destruct j; discriminate.
+      - intros ->. cbn in H1. inversion H1; subst e1. cbn in Hs. exact Hs. }
+    intro Hhb. exact (H _ _ Hhb eq_refl).
+Qed.
